@@ -144,7 +144,40 @@ func checkNames(p *Program, r *Report) {
 			fatalf("unresolved anchor: exact / prefix lookups")
 		}
 		checkLookupSound(p, r, prefix)
-		val := findByCallees(p, "addition validator", funcKey(exact), funcKey(prefix))
+		// the validator: the innermost function from which both lookups are reached
+		// (directly, or through per-aspect helpers such as "not a directory" /
+		// "no parent is a ref"); those helpers are analysed as part of it
+		var val *ssa.Function
+		viaHelpers := map[string]bool{}
+		{
+			cand := map[*ssa.Function]bool{}
+			for _, f := range p.Funcs {
+				if f.Parent() == nil && f != exact && f != prefix && reachesCallee(p, f, funcKey(exact), 1) && reachesCallee(p, f, funcKey(prefix), 1) {
+					cand[f] = true
+				}
+			}
+			var inner []*ssa.Function
+			for f := range cand {
+				isInner := true
+				for k := range directCallees(f) {
+					if g := p.Func(k); g != nil && g != f && cand[g] {
+						isInner = false
+					}
+				}
+				if isInner {
+					inner = append(inner, f)
+				}
+			}
+			if len(inner) != 1 {
+				fatalf("unresolved anchor: addition validator (reaches %s and %s): %d candidates", funcKey(exact), funcKey(prefix), len(inner))
+			}
+			val = inner[0]
+			for k := range directCallees(val) {
+				if g := p.Func(k); g != nil && g != exact && g != prefix && g != validator && (directCallees(g)[funcKey(exact)] || directCallees(g)[funcKey(prefix)]) {
+					viaHelpers[k] = true
+				}
+			}
+		}
 		// when the per-name part was split off, the loop over the additions is in
 		// its caller: analyse that, with the per-name part inlined
 		hasLoop := func(f *ssa.Function) bool {
@@ -168,6 +201,9 @@ func checkNames(p *Program, r *Report) {
 			}
 		}
 		inline := map[string]bool{}
+		for k := range viaHelpers {
+			inline[k] = true
+		}
 		if !callsValidatorInLoop {
 			var callers []*ssa.Function
 			for _, g := range p.Funcs {
